@@ -73,21 +73,44 @@ Theorem C05_surgery_atomic : forall pre f args post repl,
 Proof. exact surgery_atomic. Qed.
 Print Assumptions C05_surgery_atomic.
 
-(* ... and is wrong for a compound first argument (replayed on the real code: corpus/C05/F3_noop_compound.json,
-   and `no_op(r*(rr + k))` -> SyntaxError in the call stream of harness/c05.py) *)
+(* the identity/no_op branch after repair D41 replaces the marker call by "(" arg ")": for an argument text without
+   parentheses the result is the original text with the marker name deleted ... *)
+Theorem C05_identity_surgery_text : forall pre arg post,
+  find (s2l "identity" ++ ["("]) (pre ++ s2l "identity" ++ "(" :: arg ++ ")" :: post) = Some (List.length pre) ->
+  notin ")" arg = true -> find (s2l "identity" ++ "(" :: arg ++ [")"]) post = None ->
+  identity_surgery (pre ++ s2l "identity" ++ "(" :: arg ++ ")" :: post) arg = Some (pre ++ "(" :: arg ++ ")" :: post).
+Proof. exact identity_surgery_text. Qed.
+Print Assumptions C05_identity_surgery_text.
+
+(* ... and that preserves the value: the same tokens X read as `f(X)` give Call f [a], read as `(X)` give a, and the
+   marker call evaluates like its argument *)
+Theorem C05_call_vs_paren : forall m X a r f, pE m X = Some (a, TRp :: r) ->
+  pA (S (S m)) (TId f :: TLp :: X) = Some (Call f [a], r) /\ pA (S m) (TLp :: X) = Some (a, r).
+Proof. exact call_vs_paren. Qed.
+Print Assumptions C05_call_vs_paren.
+
+Theorem C05_eval_identity : forall env venv a, eval env venv (Call (s2l "identity") [a]) = eval env venv a /\
+  eval env venv (Call (s2l "no_op") [a]) = eval env venv a.
+Proof. exact eval_identity. Qed.
+Print Assumptions C05_eval_identity.
+
+(* the former refutation witness `2*no_op(r + rr)` (2*r + rr before D41) now keeps its value 7/2 *)
+Theorem C05_surgery_repaired_precedence :
+  let env := [(s2l "r", mkq 3 2); (s2l "rr", mkq 1 4)] in
+  identity_surgery (s2l "2*identity(r + rr)") (s2l "r + rr") = Some (s2l "2*(r + rr)") /\
+  oq_eqb (eval_string env [] (s2l "2*no_op(r + rr)")) (Some (mkq 7 2)) = true /\
+  oq_eqb (eval_string env [] (s2l "2*(r + rr)")) (Some (mkq 7 2)) = true.
+Proof. exact surgery_repaired_precedence. Qed.
+Print Assumptions C05_surgery_repaired_precedence.
+
+(* an argument that contains parentheses still breaks the surgery (first `)` is not the end of the call): loud
+   (SyntaxError in the generated file; the call stream of harness/c05.py demands exactly that error class) *)
 Theorem C05_surgery_refuted_unbalanced :
   balanced (s2l "identity(a*(b + k))") = true /\
-  option_map balanced (process_func_call (s2l "identity(a*(b + k))") (s2l "identity") (s2l "a*(b + k)")) = Some false.
+  option_map balanced (process_func_call (s2l "identity(a*(b + k))") (s2l "identity") (s2l "a*(b + k)")) = Some false /\
+  option_map balanced (identity_surgery (s2l "identity(a*(b + k))") (s2l "a*(b + k)")) = Some false.
 Proof. exact surgery_refuted_unbalanced. Qed.
 Print Assumptions C05_surgery_refuted_unbalanced.
-
-Theorem C05_surgery_refuted_precedence :
-  let env := [(s2l "r", mkq 3 2); (s2l "rr", mkq 1 4)] in
-  process_func_call (s2l "2*identity(r + rr)") (s2l "identity") (s2l "r + rr") = Some (s2l "2*r + rr") /\
-  oq_eqb (eval_string env [] (s2l "2*no_op(r + rr)")) (Some (mkq 7 2)) = true /\
-  oq_eqb (eval_string env [] (s2l "2*r + rr")) (Some (mkq 13 4)) = true.
-Proof. exact surgery_refuted_precedence. Qed.
-Print Assumptions C05_surgery_refuted_precedence.
 
 (* non-vacuity: a non-trivial AST (depth 4, three identifiers, every operator) satisfies the guards; printed in a style
    with redundant parentheses, blanks and alternating ^ / ** it parses back to itself; its value is 41/32 *)
